@@ -25,6 +25,11 @@ CLAIMS = {
         "Trusted: symx interception layer incl. the token <-> proxy mapping around the C parser (read_csv), z3. Float columns carry concrete sample values (their %.6g text is produced by the real to_csv); pysam VCF is C18.",
         "DESIGN.md 4/C08",
     ),
+    "C12": (
+        "The real do_target (zero-width filter, --split through subdivide, label shortening) and do_antitarget (drop_noncanonical_contigs / guessed extents, resize_ranges(-500), subtract of the padded targets, subdivide) run on 1-2 baits and one accessible region with symbolic coordinates (overlap, nesting, abutting, zero width reachable) plus concrete untargeted canonical / non-canonical contigs. z3 proves per path: target bins cover exactly the union of the non-empty baits, are disjoint, ordered, cut into max(1, round(L/avg)) equal bins; antitargets are named Antitarget, lie inside the accessible region shrunk by 500 and outside every target padded by 500 (one universally quantified position), are pairwise disjoint, have size in [min, 1.5 avg], and cover every window of off-target accessible sequence of at least the minimum size; untargeted canonical contigs are binned, non-canonical ones skipped.",
+        "Trusted: symx interception layer, z3. Average/minimum sizes are concrete ({(1000,300),(700,200)} with coordinates <= 6000); annotation files are not exercised.",
+        "DESIGN.md 4/C12",
+    ),
     "C13": (
         "The real do_access (get_regions scanner over in-memory FASTA lines, drop_noncanonical_contigs, subtract of exclude BEDs read by tabio, join_regions) runs on a sequence of up to 6 bases (8 thorough) whose every base is a solver-chosen N/non-N, for every line width, with 0-2 exclude regions with symbolic coordinates and a symbolic min_gap, plus a second sequence (empty, all-N, non-canonical, mixed case). z3 proves per path, for every position: reported iff it is a non-N non-excluded base or lies in an internal gap shorter than min_gap; regions non-empty, sorted, separated by at least one base, inside the sequence; non-canonical names dropped exactly when asked.",
         "Trusted: symx interception layer, z3; `open` is replaced by in-memory lines, exclude files are StringIO handles. The base sequence is concretised by solver forks (2^L sequences per line width), exclude coordinates and min_gap stay symbolic.",
